@@ -68,6 +68,10 @@ pub struct World {
   /// BuildOptions::passthrough_jsr_specifiers of every build over this world (kept here because the
   /// class of a jsr: specifier - resolved through the registry, or marked external at once - depends on it)
   pub passthrough_jsr: bool,
+  /// None = builds over this world have no npm resolver; else what the resolver answers per requirement
+  /// ("name@req" as PackageReq prints it): 1 = rejected, 2 = resolves but the dependency graph of a batch
+  /// containing it fails, anything else / absent = resolves
+  pub npm: Option<BTreeMap<String, u8>>,
 }
 
 pub fn render(src: &ModSrc, is_js: bool) -> String {
@@ -583,4 +587,41 @@ pub fn gen_world(rng: &mut Rng, cfg: &GenCfg) -> (World, Vec<String>) {
     roots.push(specs[0].clone());
   }
   (world, roots)
+}
+
+/// An NpmResolver answering from `World::npm`; every resolve_pkg_reqs call is appended to the
+/// loader's call log as a pseudo call (cache_setting "npm", specifier = the requirements joined by
+/// spaces), so that the order of batches is observed together with the loader calls.
+#[derive(Debug)]
+pub struct WorldNpm<'a> {
+  pub answers: &'a BTreeMap<String, u8>,
+  pub log: &'a RefCell<Vec<LoadCall>>,
+}
+
+#[derive(Debug, deno_error::JsError)]
+#[class(generic)]
+struct NpmFault(&'static str);
+impl std::fmt::Display for NpmFault {
+  fn fmt(&self, f: &mut std::fmt::Formatter<'_>) -> std::fmt::Result {
+    write!(f, "{}", self.0)
+  }
+}
+impl std::error::Error for NpmFault {}
+
+#[async_trait::async_trait(?Send)]
+impl deno_graph::source::NpmResolver for WorldNpm<'_> {
+  fn load_and_cache_npm_package_info(&self, _package_name: &str) {}
+
+  async fn resolve_pkg_reqs(&self, package_reqs: &[deno_semver::package::PackageReq]) -> deno_graph::source::NpmResolvePkgReqsResult {
+    let names: Vec<String> = package_reqs.iter().map(|r| r.to_string()).collect();
+    self.log.borrow_mut().push(LoadCall { reload: false, asset: false, specifier: names.join(" "), cache_setting: "npm", checksum: None, in_dynamic_branch: false });
+    let code = |r: &String| self.answers.get(r).copied().unwrap_or(0);
+    let results = names
+      .iter()
+      .map(|r| if code(r) == 1 { Err(deno_graph::NpmLoadError::RegistryInfo(Arc::new(NpmFault("rejected")))) } else { Ok(()) })
+      .collect();
+    let dep_graph_result: Result<(), Arc<dyn deno_error::JsErrorClass>> =
+      if names.iter().any(|r| code(r) == 2) { Err(Arc::new(NpmFault("dependency graph"))) } else { Ok(()) };
+    deno_graph::source::NpmResolvePkgReqsResult { results, dep_graph_result }
+  }
 }
